@@ -169,13 +169,33 @@ def one_tree(ck: Check, root: Node, reqs: list[str], impl: list[str], inputs: li
                     if impl_value(nav, p + (i,)) != show_tree(whole[i]):
                         ck.fail("index-commutes", f"value({path_token(p)})[{i}] != value({path_token(p)}.index({i})) [{label}]", {**inp, "path": path_token(p)})
                         break
+                for beyond in (len(whole), len(whole) + 1, len(whole) + 2 + len(p) * 3):
+                    try:
+                        n.index(beyond)
+                        ck.fail("index-bound", f"{path_token(p)}.index({beyond}) is accepted ({len(whole)} occurrences)", {**inp, "path": path_token(p)})
+                    except IndexError:
+                        pass
+                    except BaseException as ex:  # noqa: BLE001
+                        ck.fail("index-bound", f"{path_token(p)}.index({beyond}) raises {type(ex).__name__}, not IndexError", {**inp, "path": path_token(p)})
+                # the occurrences share ONE set of locations (those of occurrence 0), reached with an offset: the bytes and the value
+                # found that way are those found by navigating
                 try:
-                    n.index(len(whole))
-                    ck.fail("index-bound", f"{path_token(p)}.index({len(whole)}) is accepted", {**inp, "path": path_token(p)})
-                except IndexError:
+                    loc = n.location
+                    item0, size = loc.items, loc.item_size
+                    for i in range(len(whole)):
+                        ck.oracle_evaluations += 1
+                        it = n.index(i)
+                        if item0.raw(nav.instance, i * size) != it.raw() or it.raw() != n.raw()[i * size:(i + 1) * size]:
+                            ck.fail("raw-slice", f"occurrence {i} of {path_token(p)}: the bytes at offset {i * size} from occurrence 0 are not the "
+                                                 f"bytes of {path_token(p)}.index({i}) [{label}]", {**inp, "path": path_token(p)})
+                            break
+                        for k, floc in getattr(item0, "properties", {}).items():
+                            if floc.raw(nav.instance, i * size) != it.name(k).raw():
+                                ck.fail("raw-slice", f"occurrence {i} of {path_token(p)}, member {k}: the bytes at offset {i * size} from occurrence 0 "
+                                                     f"are not the bytes reached by navigating [{label}]", {**inp, "path": path_token(p)})
+                                break
+                except (AttributeError, IndexError):
                     pass
-                except BaseException as ex:  # noqa: BLE001
-                    ck.fail("index-bound", f"{path_token(p)}.index({len(whole)}) raises {type(ex).__name__}, not IndexError", {**inp, "path": path_token(p)})
         # raw of a child is the corresponding slice of the parent's raw
         for p in paths:
             if p and p[:-1] in spec:
@@ -287,6 +307,33 @@ def other_navigators(ck: Check, n: int) -> None:
             pass
         if not ok:
             ck.fail("dnav-commutes", "DNav: a part of the value is not the value of the part", {"instance": inst})
+        # a document that lacks a property the schema names: selecting it from the whole value fails, so must navigating to it
+        lacking = {k: v for k, v in inst.items() if k != rng.choice(["a", "e"])}
+        if lacking["b"]:
+            lacking["b"] = [dict(x) for x in lacking["b"]]
+            del lacking["b"][-1]["d"]
+        nav2 = dunp.nav(schema, lacking)  # type: ignore[arg-type]
+
+        def outcome(fn: Any) -> Any:
+            try:
+                return ("value", fn())
+            except Exception as ex:  # noqa: BLE001
+                return ("error", type(ex).__name__)
+
+        probes = [("a", lambda: nav2.name("a").value(), lambda: nav2.value()["a"]), ("e", lambda: nav2.name("e").value(), lambda: nav2.value()["e"])]
+        if lacking["b"]:
+            j = len(lacking["b"]) - 1
+            probes.append((f"b[{j}].d", lambda: nav2.name("b").index(j).name("d").value(), lambda: nav2.value()["b"][j]["d"]))
+        for label2, part, whole2 in probes:
+            ck.oracle_evaluations += 1
+            try:
+                sel = ("value", {"a": lambda: lacking["a"], "e": lambda: lacking["e"]}.get(label2, lambda: lacking["b"][-1]["d"])())
+            except KeyError:
+                sel = ("error", "KeyError")
+            got = outcome(part)
+            if sel[0] == "error" and got[0] != "error":
+                ck.fail("dnav-commutes", f"DNav: the document lacks {label2}; navigating to it yields {got[1]!r} instead of failing "
+                                         f"(selecting it from the document fails with KeyError)", {"instance": lacking, "path": label2})
         # workbook rows: properties listed in any order, each with an explicit position (any permutation, so position 0 need not
         # come first), or none at all (then the listing order is the column order)
         ncol = rng.randint(1, 5)
